@@ -8,7 +8,7 @@ in : {"ucd":{"word":[cp…],"digit":[…],"space":[…]}, "rxlib":[RX…], "patt
      ATOM = ["s",T] | ["b",[byte…]] | ["i","-12"] | ["o",T]          RX as in Drv/C01
      or {"op":"quote","safe":[byte…],"text":T}   (quote_path_segment alone)
 out: {"compile":"ok"|"reerror"|"unsupported", "template":T, "gen":R, "path":R, "url":R, "pathinfo":[byte…]|null,
-      "decoded":T|null, "match":ENV|null, "expect":ENV|null, "intended":T|null, "admissible":b, "restnolf":b,
+      "decoded":T|null, "match":ENV|null, "expect":ENV|null, "intended":T|null, "admissible":b,
       "closed":R (the token-wise substitution, must equal "gen")}
      R = {"ok":T} | {"err":"keyerror"|"unicodedecode"|"format"|"outside"}
      ENV = [[T,"s",T] | [T,"t",[T…]]…] -/
@@ -156,5 +156,4 @@ def main : IO Unit := jsonDriver fun j => do
       ("match", optJson envJson mtch),
       ("expect", optJson envJson (expectEnv kw toks)),
       ("intended", optJson tJson (intended kw toks)),
-      ("admissible", toJson (decide (Admissible toks kw))),
-      ("restnolf", toJson (restNoLF kw toks))]
+      ("admissible", toJson (decide (Admissible toks kw)))]
